@@ -294,6 +294,13 @@ FIXED = [
     [("open",), ("set", 0, 0, 1, 1), ("write", ""), ("set", 0, 1, 2, 2), ("write", ""), ("set", 0, 2, 3, 3), ("write", "EOL"),
      ("split", [[0, 5]]), ("steps",), ("split", []), ("split", [[0, 1], [0, 1]]), ("split", [[0, 2]]), ("file",), ("load", 0, 1, ""),
      ("history", BLOCK), ("split", [[0, 1]]), ("file",), ("close", True), ("file",)],
+    # unsorted keepTimeSteps: the least kept cycle is the minimum, not the first one named
+    [("open",), ("set", 0, 1, 1, 1), ("write", ""), ("set", 1, 0, 2, 2), ("write", ""), ("set", 2, 1, 3, 3), ("write", ""),
+     ("split", [[2, 1], [1, 0]]), ("steps",), ("load", 1, 1, ""), ("load", 0, 0, ""), ("history", BLOCK), ("file",), ("close", True), ("file",)],
+    # a labelled and an unlabelled snapshot of one node, then a merge past them (listing and groups must stay aligned)
+    [("open",), ("set", 0, 0, 1, 1), ("write", ""), ("set", 0, 1, 2, 2), ("write", ""), ("set", 0, 1, 4, 4), ("write", "EOL"),
+     ("set", 0, 2, 5, 5), ("write", ""), ("set", 1, 0, 6, 6), ("write", ""), ("merge", 0, 2), ("merge", 1, 0), ("merge", 0, 1),
+     ("steps",), ("close", True), ("file",)],
     # naming bound: cycle 100 sorts before cycle 99 and is not listed
     [("open",), ("set", 99, 0, 1, 1), ("write", ""), ("set", 100, 0, 2, 2), ("write", ""), ("set", 5, 100, 3, 3), ("write", ""),
      ("steps",), ("file",), ("close", True)],
@@ -354,7 +361,7 @@ def gen_history(rng):
 
 
 def section_histories(ctx):
-    n = ctx.pick(45, 1200)
+    n = ctx.pick(30, 1200)
     hists = FIXED + [gen_history(ctx.rng) for _ in range(n)]
     reqs, impl, cases = [], [], []
     with common.scratch_dir():
@@ -538,6 +545,14 @@ def real_crash(shape, pos, failAt, kind="exception"):
     extra = {}
     if crashed and "unexpected" in dir() and locals().get("unexpected"):
         extra["unexpected"] = unexpected
+    try:   # every Operator makes itself a fresh FAST_PATH directory; remove this run's
+        from armi import context
+        fp = context.getFastPath()
+        if os.path.isdir(fp) and os.path.abspath(fp) != os.path.abspath(os.getcwd()):
+            import shutil
+            shutil.rmtree(fp, ignore_errors=True)
+    except Exception:  # noqa
+        pass
     if extra.get("unexpected"):
         if os.path.exists(fn):
             os.remove(fn)
@@ -560,13 +575,45 @@ def real_crash(shape, pos, failAt, kind="exception"):
     return f"work=T success={tf(succ)} open=F {summ}", f.calls, crashed, extra
 
 
+def _pool_init(base):
+    """Worker of the crash-run pool: its own working directory and its own fast-path name."""
+    import tempfile
+    os.chdir(tempfile.mkdtemp(prefix="w", dir=base))
+    os.environ["PYTEST_XDIST_WORKER"] = f"w{os.getpid()}"     # part of armi's FAST_PATH name (context.activateLocalFastPath)
+
+
+def _crash_job(job):
+    shape, pos, K, kind = job
+    try:
+        return real_crash(shape, pos, K, kind)
+    except common.Infra:
+        raise
+    except Exception as e:  # noqa  -- e.g. the operator could not even be built: reported by the oracle, not a harness crash
+        return "none", [], True, {"unexpected": "run could not be set up: " + repr(e)[:300]}
+
+
+def run_crash_jobs(ctx, jobs, base):
+    """The real operator runs, in a small process pool (each worker in its own scratch directory); serial if
+    VERIF_JOBS=1 or the pool cannot be made. Results come back in job order."""
+    n = int(os.environ.get("VERIF_JOBS", "4") or 4)
+    if n > 1 and len(jobs) > 8:
+        try:
+            import multiprocessing as mp
+            with mp.get_context("fork").Pool(n, initializer=_pool_init, initargs=(base,)) as pool:
+                out = pool.map(_crash_job, jobs, chunksize=4)
+            ctx.count("crash runs: pool workers", n)
+            return out
+        except Exception as e:  # noqa
+            ctx.say(f"crash-run pool unavailable ({e!r}); running serially")
+    return [_crash_job(j) for j in jobs]
+
+
 def section_crashes(ctx):
     # (cycles, burn steps, tight coupling, cycles exempt from coupling): with coupling on the database interface writes each
     # node from _performTightCoupling's trailing writeDBEveryNode (also in exempt cycles), not from interactEveryNode
     shapes = ctx.pick([(2, 2, False, ()), (1, 0, False, ()), (2, 1, True, ()), (2, 1, True, (1,)), (2, 2, True, (0, 1))],
                       [(2, 2, False, ()), (1, 0, False, ()), (2, 1, True, ()), (2, 1, True, (1,)), (2, 2, True, (0, 1)),
-                       (3, 1, False, ()), (1, 3, True, ()), (3, 1, True, (0, 2)), (2, 0, True, (0,))])
-    sparse = set() if ctx.thorough else set(shapes[3:])     # quick: every third crash point of the added coupled shapes
+                       (3, 1, False, ()), (1, 3, True, ()), (3, 1, True, (0, 2)), (1, 0, True, (0,))])
     # model runs first: where are the fault interface's hook calls in the schedule?
     plan = []
     for shape in shapes:
@@ -574,39 +621,44 @@ def section_crashes(ctx):
             cfg = shape_cfg(shape, pos)
             plan.append((shape, pos, cfg))
     runs = lean_run("Schedule", [c15.run_request(cfg) for _, _, cfg in plan])
+    jobs, meta = [], []
+    for si, ((shape, pos, cfg), line) in enumerate(zip(plan, runs)):
+        events = c15.parse_log(line)
+        fidx = [i for i, e in enumerate(events) if e[1] == FAULT]
+        cfgargs = c15.run_request(cfg)[4:]
+        ref = c15.parse_log(c15.flat(c15.reference(cfg)))   # the independent reference schedule (oracle)
+        sidx = shapes.index(shape)
+        points = [(None, "exception")]
+        for K in range(1, len(fidx) + 1):
+            if ctx.thorough:
+                # every hook call x every kind of abort (ordinary exception, sys.exit, KeyboardInterrupt)
+                points += [(K, kind) for kind in ABORT_KINDS]
+            elif (K + pos + sidx) % 2 == 0:
+                # quick: every second hook call per stack position, offset by position and shape so that every
+                # (hook, cycle, node) of every shape is hit at some position; the abort kind rotates
+                points.append((K, ABORT_KINDS[(K // 2 + pos + sidx) % 3]))
+        for K, kind in points:
+            jobs.append((shape, pos, K, kind))
+            meta.append((shape, pos, K, kind, fidx, cfgargs, ref))
     reqs, impl, cases = [], [], []
-    with common.scratch_dir():
-        for (shape, pos, cfg), line in zip(plan, runs):
-            events = c15.parse_log(line)
-            fidx = [i for i, e in enumerate(events) if e[1] == FAULT]
-            cfgargs = c15.run_request(cfg)[4:]
-            ref = c15.parse_log(c15.flat(c15.reference(cfg)))   # the independent reference schedule (oracle)
-            points = [(K, "exception") for K in list(range(1, len(fidx) + 1)) + [None]
-                      if K is None or shape not in sparse or (K + pos) % 3 == 1]
-            # aborts that are BaseException but not Exception (sys.exit / Ctrl-C inside a hook): every point in the
-            # thorough tier; in quick every second point of the first shape and every fourth point of the next two, alternating kinds
-            for K in range(1, len(fidx) + 1):
-                if ctx.thorough:
-                    points += [(K, "SystemExit"), (K, "KeyboardInterrupt")]
-                elif (shape == shapes[0] and (K + pos) % 2 == 0) or (shape not in sparse and (K + pos) % 4 == 0):
-                    points.append((K, ABORT_KINDS[1 + (K // 2 + pos) % 2]))
-            for K, kind in points:
-                summ, calls, crashed, extra = real_crash(shape, pos, K, kind)
-                case = {"shape": list(shape), "fault_position": pos, "fail_at_call": K, "abort_kind": kind,
-                        "fault_call": list(calls[-1]) if calls else None}
-                if K is None:
-                    reqs.append(f"complete {MAIN} {FAULT} {cfgargs}")
-                else:
-                    reqs.append(f"crash {MAIN} {FAULT} {fidx[K - 1]} {cfgargs}")   # the crash path does not depend on the kind
-                impl.append(summ); cases.append(case)
-                ctx.count("run shape: " + ("tight coupling, exempt cycles " + str(list(shape[3])) if shape[2] else "no coupling"))
-                ctx.count("crash point: " + (f"{calls[-1][0]} fault {'before main' if pos == 0 else 'before database' if pos == 1 else 'after database'}"
-                                             if K else "complete run"))
-                if K:
-                    ctx.count("abort kind: " + kind)
-                ctx.case(("crash", tuple(shape), pos, K, kind), sample=dict(case, file=summ[:200]) if (pos, K, kind) in ((2, 4, "exception"), (1, 7, "SystemExit")) else None)
-                # ---- oracle, from the reference schedule and the fault interface's own record
-                oracle_crash(ctx, case, shape, pos, K, ref, summ, calls, crashed, extra)
+    with common.scratch_dir() as base:
+        results = run_crash_jobs(ctx, jobs, base)
+    for (shape, pos, K, kind, fidx, cfgargs, ref), (summ, calls, crashed, extra) in zip(meta, results):
+        case = {"shape": list(shape), "fault_position": pos, "fail_at_call": K, "abort_kind": kind,
+                "fault_call": list(calls[-1]) if calls else None}
+        if K is None:
+            reqs.append(f"complete {MAIN} {FAULT} {cfgargs}")
+        else:
+            reqs.append(f"crash {MAIN} {FAULT} {fidx[K - 1]} {cfgargs}")   # the crash path does not depend on the kind
+        impl.append(summ); cases.append(case)
+        ctx.count("run shape: " + ("tight coupling, exempt cycles " + str(list(shape[3])) if shape[2] else "no coupling"))
+        posname = "before main" if pos == 0 else "before database" if pos == 1 else "after database"
+        ctx.count("crash point: " + (f"{calls[-1][0]} fault {posname}" if K else "complete run"))
+        if K:
+            ctx.count(f"abort kind: {kind}, fault {posname}")
+        ctx.case(("crash", tuple(shape), pos, K, kind), sample=dict(case, file=summ[:200]) if len(ctx.samples) < 5 and K else None)
+        # ---- oracle, from the reference schedule and the fault interface's own record
+        oracle_crash(ctx, case, shape, pos, K, ref, summ, calls, crashed, extra)
     model = lean_run("SnapStore", reqs)
     ctx.compare("SnapStore.fileAfterCrash/fileAfterRun vs Operator + DatabaseInterface on HDF5", cases, model, impl)
     ctx.traces += len(reqs)
@@ -678,7 +730,8 @@ def run(ctx):
     ctx.rule = ("(1) fixed + generated histories of open/set/write[label]/load/steps/history/merge/split/close on a real Database "
                 "(one case = one history; every op's answer compared with the stateful model and judged by the shadow-record oracle); "
                 "(2) reference reactor with two assemblies swapped between writes, block and assembly histories; (3) EVERY hook call of a "
-                "fault-injecting interface at EVERY stack position (before main, between main and database, after database) for each run "
+                "fault-injecting interface at EVERY stack position (quick: every second call per position, offset so that every call is hit "
+                "at some position, abort kind rotating; thorough: every call x every abort kind) - in the sense: EVERY stack position (before main, between main and database, after database) for each run "
                 "shape (cycles x burn steps x coupling), plus the complete run: one case = one real operator run and the file it leaves.")
 
 
